@@ -21,11 +21,14 @@ theorem code_mem (m : Method) (c : Cand α) : c.code m ∈ codes := by
 
 /-- the snapshot `sn` is "behind" the state: every candidate's code in `sn` can move forward to its current code -/
 def Behind (sn : Snap α) (s : St α) : Prop :=
-  ∀ c ∈ s.cands, ∃ e ∈ sn.cs, e.1 = c.cid ∧ e.2.1 ∈ codes ∧ fwd e.2.1 (c.code s.method) = true
+  (∀ c ∈ s.cands, ∃ e ∈ sn.cs, e.1 = c.cid ∧ e.2.1 ∈ codes ∧ fwd e.2.1 (c.code s.method) = true)
+  ∧ ∀ e ∈ sn.cs, ∃ c ∈ s.cands, c.cid = e.1
 
-/-- consecutive snapshots of the log (newest first) are related by `fwd`, candidate by candidate -/
+/-- consecutive snapshots of the log (newest first) are related by `fwd`, candidate by candidate, and no candidate of
+    the older snapshot is missing from the newer one -/
 def SnapStep (old new : Snap α) : Prop :=
-  ∀ e' ∈ new.cs, ∃ e ∈ old.cs, e.1 = e'.1 ∧ fwd e.2.1 e'.2.1 = true
+  (∀ e' ∈ new.cs, ∃ e ∈ old.cs, e.1 = e'.1 ∧ fwd e.2.1 e'.2.1 = true)
+  ∧ ∀ e ∈ old.cs, ∃ e' ∈ new.cs, e'.1 = e.1
 
 def snaps (acts : List (Act α)) : List (Snap α) := acts.filterMap (·.snap)
 
@@ -39,17 +42,28 @@ def Mon (s : St α) : Prop :=
   RecMon (snaps s.acts) ∧ ∀ sn, (snaps s.acts).head? = some sn → Behind sn s
 
 theorem behind_mkSnap (s : St α) : Behind (s.mkSnap A) s := by
-  intro c hc
-  refine ⟨(c.cid, c.code s.method, c.vote, c.kf, c.quotient), ?_, rfl, code_mem _ _, fwd_refl _⟩
-  unfold St.mkSnap
-  exact List.mem_map.2 ⟨c, hc, rfl⟩
+  refine ⟨?_, ?_⟩
+  · intro c hc
+    refine ⟨(c.cid, c.code s.method, c.vote, c.kf, c.quotient), ?_, rfl, code_mem _ _, fwd_refl _⟩
+    unfold St.mkSnap
+    exact List.mem_map.2 ⟨c, hc, rfl⟩
+  · intro e he
+    unfold St.mkSnap at he
+    obtain ⟨c, hc, rfl⟩ := List.mem_map.1 he
+    exact ⟨c, hc, rfl⟩
 
 theorem snapStep_of_behind (sn : Snap α) (s : St α) (h : Behind sn s) : SnapStep sn (s.mkSnap A) := by
-  intro e' he'
-  unfold St.mkSnap at he'
-  obtain ⟨c, hc, rfl⟩ := List.mem_map.1 he'
-  obtain ⟨e, he, h1, _, h3⟩ := h c hc
-  exact ⟨e, he, h1, h3⟩
+  refine ⟨?_, ?_⟩
+  · intro e' he'
+    unfold St.mkSnap at he'
+    obtain ⟨c, hc, rfl⟩ := List.mem_map.1 he'
+    obtain ⟨e, he, h1, _, h3⟩ := h.1 c hc
+    exact ⟨e, he, h1, h3⟩
+  · intro e he
+    obtain ⟨c, hc, hce⟩ := h.2 e he
+    refine ⟨(c.cid, c.code s.method, c.vote, c.kf, c.quotient), ?_, hce⟩
+    unfold St.mkSnap
+    exact List.mem_map.2 ⟨c, hc, rfl⟩
 
 theorem Mon.logAct {s : St α} (h : Mon s) (tag verb : String) (subj : List Nat) : Mon (s.logAct A tag verb subj) := by
   -- the logged state differs from `s` only in `rounds` (tag = round) and `acts`
@@ -68,16 +82,16 @@ theorem Mon.logAct {s : St α} (h : Mon s) (tag verb : String) (subj : List Nat)
         refine ⟨?_, ?_⟩
         · have hbo : Behind old s := h.2 old (by unfold snaps; rw [hs]; rfl)
           have hbo1 : Behind old s1 := by
+            refine ⟨?_, by rw [hc]; exact hbo.2⟩
             intro c hc1; rw [hc] at hc1
-            obtain ⟨e, he, h1, h2, h3⟩ := hbo c hc1
+            obtain ⟨e, he, h1, h2, h3⟩ := hbo.1 c hc1
             exact ⟨e, he, h1, h2, by rw [hm]; exact h3⟩
           exact snapStep_of_behind A old s1 hbo1
         · have := h.1; unfold snaps at this; rw [hs] at this; exact this
     · intro sn hsn
       simp only [List.head?_cons, Option.some.injEq] at hsn
       rw [← hsn]
-      intro c hc1
-      exact hb1 c hc1
+      exact hb1
   unfold St.logAct
   simp only
   split
@@ -90,29 +104,43 @@ theorem Mon.upd_forward {s : St α} (h : Mon s) (cid : Nat) (f : Cand α → Can
     (hf : ∀ c ∈ s.cands, c.cid = cid → fwd (c.code s.method) ((f c).code s.method) = true) :
     Mon (s.upd cid f) := by
   refine ⟨h.1, ?_⟩
-  intro sn hsn c' hc'
-  obtain ⟨c, hc, rfl⟩ := mem_upd.1 hc'
-  obtain ⟨e, he, h1, h2, h3⟩ := h.2 sn hsn c hc
-  by_cases hcc : (c.cid == cid) = true
-  · simp only [hcc, if_true]
-    refine ⟨e, he, by rw [hcid]; exact h1, h2, ?_⟩
-    exact fwd_trans _ h2 _ (code_mem _ _) _ (code_mem _ _) h3 (hf c hc (by simpa using hcc))
-  · have hf' : (c.cid == cid) = false := by simpa using hcc
-    simp only [hf', Bool.false_eq_true, if_false]
-    exact ⟨e, he, h1, h2, h3⟩
+  intro sn hsn
+  refine ⟨?_, ?_⟩
+  · intro c' hc'
+    obtain ⟨c, hc, rfl⟩ := mem_upd.1 hc'
+    obtain ⟨e, he, h1, h2, h3⟩ := (h.2 sn hsn).1 c hc
+    by_cases hcc : (c.cid == cid) = true
+    · simp only [hcc, if_true]
+      refine ⟨e, he, by rw [hcid]; exact h1, h2, ?_⟩
+      exact fwd_trans _ h2 _ (code_mem _ _) _ (code_mem _ _) h3 (hf c hc (by simpa using hcc))
+    · have hf' : (c.cid == cid) = false := by simpa using hcc
+      simp only [hf', Bool.false_eq_true, if_false]
+      exact ⟨e, he, h1, h2, h3⟩
+  · intro e he
+    obtain ⟨c, hc, hce⟩ := (h.2 sn hsn).2 e he
+    refine ⟨if c.cid == cid then f c else c, mem_upd.2 ⟨c, hc, rfl⟩, ?_⟩
+    split
+    · rw [hcid]; exact hce
+    · exact hce
 
 /-- anything that leaves ids, statuses, method and the log alone preserves `Mon` -/
 theorem Mon.of_skel {s t : St α} (h : Mon s) (hsk : t.skel = s.skel) (hm : t.method = s.method) (ha : t.acts = s.acts) :
     Mon t := by
   refine ⟨by rw [ha]; exact h.1, ?_⟩
-  intro sn hsn c' hc'
+  intro sn hsn
   rw [ha] at hsn
-  obtain ⟨c, hc, hcs⟩ := mem_of_skel_eq hsk hc'
-  obtain ⟨e, he, h1, h2, h3⟩ := h.2 sn hsn c hc
-  have hcode : c'.code t.method = c.code s.method := by
-    unfold Cand.code
-    rw [hm, ← (skel_st hcs).1, ← (skel_st hcs).2]
-  exact ⟨e, he, h1.trans (skel_cid hcs), h2, by rw [hcode]; exact h3⟩
+  refine ⟨?_, ?_⟩
+  · intro c' hc'
+    obtain ⟨c, hc, hcs⟩ := mem_of_skel_eq hsk hc'
+    obtain ⟨e, he, h1, h2, h3⟩ := (h.2 sn hsn).1 c hc
+    have hcode : c'.code t.method = c.code s.method := by
+      unfold Cand.code
+      rw [hm, ← (skel_st hcs).1, ← (skel_st hcs).2]
+    exact ⟨e, he, h1.trans (skel_cid hcs), h2, by rw [hcode]; exact h3⟩
+  · intro e he
+    obtain ⟨c, hc, hce⟩ := (h.2 sn hsn).2 e he
+    obtain ⟨c', hc', hcs⟩ := mem_of_skel_eq hsk.symm hc
+    exact ⟨c', hc', (skel_cid hcs).trans hce⟩
 
 theorem Mon.elect {s : St α} (h : Mon s) (cid : Nat) (verb : String) (p : Bool)
     (hhop : ∀ c ∈ s.cands, c.cid = cid → c.st = .hopeful) : Mon (s.elect A cid verb p) := by
